@@ -230,4 +230,29 @@ example : (match replay (init g1) h1 with
         enabled (apply s (.R ⟨0, 0, .chunk 0⟩ .complete)) (.launch ⟨0, 0, .join⟩)
     | .error _ => false) = true := by decide
 
+/-! A larger example: producer stage 0, a PIPELINE node 1 that returns it, and a splitting consumer 2
+of the pipeline's output whose second fork is added at RUN TIME (after its map source is known).
+While the pipeline is unfinished the consumer cannot be told to run and nothing of it can be
+submitted; afterwards both forks can submit their split. -/
+def g3p : List NodeInfo :=
+  [{ kind := .stage, pre := [] }, { kind := .pipeline, pre := [0] }, { kind := .splitstage, pre := [1] }]
+
+def h3p : List Ev :=
+  [.fork 0 0, .fork 1 0, .fork 2 0, .nodestate 0 .running, .refresh,
+   .W ⟨0, 0, .split⟩ .complete, .mkchunks 0 0 1, .launch ⟨0, 0, .chunk 0⟩,
+   .joblog ⟨0, 0, .chunk 0⟩, .jobend ⟨0, 0, .chunk 0⟩ .complete, .R ⟨0, 0, .chunk 0⟩ .complete,
+   .W ⟨0, 0, .join⟩ .complete, .W ⟨0, 0, .fork⟩ .complete, .nodestate 0 .complete,
+   .nodestate 1 .running]
+
+example : (match replay (init g3p) h3p with
+    | .ok s => nodeDone s 0 && !nodeDone s 1 && !enabled s (.nodestate 2 .running) &&
+               !enabled s (.launch ⟨2, 0, .split⟩)
+    | .error _ => false) = true := by decide
+
+example : (match replay (init g3p)
+      (h3p ++ [.W ⟨1, 0, .fork⟩ .complete, .nodestate 1 .complete, .fork 2 1, .nodestate 2 .running]) with
+    | .ok s => nodeDone s 1 && s.forksOf 2 == [0, 1] && enabled s (.launch ⟨2, 0, .split⟩) &&
+               enabled s (.launch ⟨2, 1, .split⟩) && !enabled s (.fork 2 2)
+    | .error _ => false) = true := by decide
+
 end Props.C02
